@@ -34,7 +34,7 @@ func init() {
 			"distinct_nontrivial = distinct (source, type-shape, alias-tag kinds, pattern vector) signatures with >=1 aliased leaf.",
 		Assumptions: []string{
 			"a field carrying both an alias tag and a format-specific tag is outside the statement and not generated",
-			"alias tags are put on leaves (not on struct-typed fields)",
+			"in the generated types alias tags are put on leaves; an alias on a struct-typed field (section under either name, inner aliases inside both, both keys present with one section empty) is exercised through the static ez config type",
 		},
 		MinDistinct: map[string]int{"quick": 8000, "thorough": 1000000},
 		MinCounters: map[string]map[string]int64{
